@@ -1,7 +1,9 @@
 (* Property C03 - recording length: min-secs past the last motion, never more than max-secs. *)
+From Coq Require Import String.
 From Coq Require Import List ZArith Bool.
 From TR Require Import model.Ring model.Processor model.ProcAbs model.ProcSpec proofs.ProcS0304.
 (* constants and wiring read from the Go sources on every run *)
+From TR Require Import model.GoSem model.CtorExt proofs.TieCtor model.ProcExt translated.MotionProcessor.
 From TR Require Import proofs.FactsProc.
 Import ListNotations.
 Open Scope Z_scope.
@@ -32,3 +34,15 @@ Example C03_ex_blip :
       [EFrame 0 false true; EFrame 1 true true; EFrame 2 false true; EFrame 3 false true])) =
     [false; false; true; false].
 Proof. vm_compute. reflexivity. Qed.
+
+(* ---- source tie for the constructor(s) as they are in /repo now (coq/translated, regenerated on
+   every run; configuration values are asked of the outside world by name, model/CtorExt.v) ---- *)
+(* NewMotionProcessor builds exactly the initial state of the model with ring capacity
+   preview-secs*fps + trigger-frames, minFrames = min-secs*fps, maxFrames = max-secs*fps (the numbers the
+   length rule above is stated in), and hands the detector preview-secs*fps preview frames. *)
+Theorem C03_source_constructor : forall c,
+    0 <= p_size (pcfg_of c) ->
+    exists w',
+      MotionProcessor_fn_NewMotionProcessor cext (cw_init c) = Ok (mp_init (pcfg_of c)) w' /\
+      In ("NewMotionDetector"%string, [ASym "*motionConf"; AInt (r_preview_secs c * r_fps c); ASym "c"]) (cw_calls w').
+Proof. exact tie_NewMotionProcessor. Qed.
